@@ -1282,6 +1282,7 @@ def fail_events(model: TopoModel):
                     ev.append(('fail', 'link-over-service-port', svc_name, port_name, model._pref(free[0])))
                     ev.append(('fail', 'type-from-service-port', svc_name, port_name))
         ev.append(('fail', 'node-duplicate-name', n0))
+        ev.append(('fail', 'rename-bad-name', n0))
         ev.append(('fail', 'node-duplicate-id', nodes[n0].node_id))
         ev.append(('fail', 'facility-duplicate-name', n0))
         ev.append(('fail', 'switch-duplicate-name', n0))
@@ -1573,6 +1574,16 @@ def _do_fail(model: TopoModel, ev):
     elif kind == 'link-same-interface-twice':
         i = model.port(*ev[2])
         t.add_link(name='ltwice', node_id=nid('ltwice'), ltype=LinkType.Patch, interfaces=[i, i])
+    elif kind == 'rename-bad-name':
+        e = model.node(ev[2])
+        old = e.name
+        model._handle_note = None
+        try:
+            e.rename('bad name!')
+        except Exception:
+            if e.name != old:
+                model._handle_note = f'the handle now reports name {e.name!r}, the model still holds {old!r}'
+            raise
     elif kind == 'type-to-service-port':
         model.port(*ev[2]).set_property('type', InterfaceType.ServicePort)
     elif kind == 'type-to-sub-interface':
@@ -1709,6 +1720,9 @@ def _check(self, pre, ev, outcome):
     v = []
     if 'c08' in self.oracles:
         v += c08_check(self, pre, ev, outcome)
+    if 'c09' in self.oracles and outcome[0] == 'raise' and ev[:2] == ('fail', 'rename-bad-name') and getattr(self, '_handle_note', None):
+        # the element through which the refused call was made is part of what the caller observes
+        v.append(('c09/rename-bad-name/handle-keeps-rejected-name', f'{ev} raised {outcome[1:]}: {self._handle_note}'))
     if 'c09' in self.oracles and outcome[0] == 'raise':
         if ev[0] == 'fail' and (getattr(self, '_stale_removed', False) or getattr(self, '_prefix_ok', False)):
             # the probe first performed a legitimate successful call (removing an owner / the first peer()); compare with
